@@ -680,7 +680,8 @@ pub fn run_property(property: &'static str, clauses: Vec<Clause>, opts: &Opts) -
         "wall_s": t0.elapsed().as_secs_f64(),
         "violations": violations.len(),
     });
-    let evdir = opts.verif_dir.join("evidence");
+    // trials of seeded changes redirect the evidence (VERIF_EVIDENCE_DIR) so that /verif/evidence only ever holds runs on /repo itself
+    let evdir = std::env::var("VERIF_EVIDENCE_DIR").map(PathBuf::from).unwrap_or_else(|_| opts.verif_dir.join("evidence"));
     let _ = std::fs::create_dir_all(&evdir);
     if opts.only.is_none() {
         if let Err(e) = std::fs::write(evdir.join(format!("{property}.json")), serde_json::to_string_pretty(&ev).unwrap()) {
